@@ -1,6 +1,7 @@
 package mon
 
 import (
+	"bytes"
 	"encoding/json"
 	"fmt"
 	"math/bits"
@@ -186,6 +187,24 @@ func c04Inst(c *core.Ctx, in *Inst, n uint64, cl claim, only string, setScn func
 	}
 }
 
+// c04Remember: Verify and VerifyPartialProof with remember=true on a throw-away copy.
+func c04Remember(c *core.Ctx, in *Inst, n uint64, cl claim, setScn func(entry string)) {
+	rows := rm.Rows(n)
+	k := in.Cfg.Kind
+	err, bad := c04Call(c, k+".Verify(remember)", rows, len(cl.Targets), func() { setScn(k + ".Verify(remember)") }, func() error {
+		return in.MP.Verify(cloneHashes(cl.Hashes), u.Proof{Targets: cloneU64(cl.Targets), Proof: cloneHashes(cl.Proof)}, true)
+	})
+	if !bad {
+		countOutcome(c, k+".Verify(remember)", err)
+	}
+	err, bad = c04Call(c, k+".VerifyPartialProof(remember)", rows, len(cl.Targets), func() { setScn(k + ".VerifyPartialProof(remember)") }, func() error {
+		return in.MP.VerifyPartialProof(cloneU64(cl.Targets), cloneHashes(cl.Hashes), cloneHashes(cl.Proof), true)
+	})
+	if !bad {
+		countOutcome(c, k+".VerifyPartialProof(remember)", err)
+	}
+}
+
 func c04Cfgs(idx int) []InstCfg {
 	r1 := []uint8{1, 2, 3, 4, 5, 6, 7, 9, 13, 31, 50, 62}[idx%12]
 	r2 := []uint8{0, 2, 5, 63}[idx%4]
@@ -252,6 +271,21 @@ func c04Run(c *core.Ctx) {
 		}
 		f := w.M.Forest()
 		g := newHostileGen(c.Rng, f, f.N, f.Roots, true, h.Tag)
+		var copies []*Inst
+		for _, in := range w.Insts {
+			if in.MP == nil {
+				continue
+			}
+			var buf bytes.Buffer
+			if _, err := in.MP.Write(&buf); err != nil {
+				continue
+			}
+			m2 := u.NewMapPollard(in.MP.Full)
+			if _, err := m2.Read(&buf); err != nil {
+				continue
+			}
+			copies = append(copies, &Inst{Cfg: in.Cfg, Name: in.Name + "(copy)", MP: &m2, U: &m2, Rem: map[Hash]bool{}})
+		}
 		for i := 0; i < c04ClaimsPerState; i++ {
 			cl := g.next()
 			claimTraits(c, g, cl)
@@ -269,6 +303,14 @@ func c04Run(c *core.Ctx) {
 			for _, in := range w.Insts {
 				cfg := in.Cfg
 				c04Inst(c, in, f.N, cl, "", scn(&cfg))
+			}
+			// the same entry points asked to REMEMBER what they verify, on throw-away copies of the
+			// map forests (restored from their own bytes), so that whatever an accepted claim makes
+			// them store cannot disturb the rest of the history
+			for ci, cp := range copies {
+				cfg := cp.Cfg
+				c04Remember(c, cp, f.N, cl, scn(&cfg))
+				_ = ci
 			}
 			if len(cl.Targets) > 0 && len(cl.Hashes) == len(cl.Targets) {
 				c.Distinct(core.FP(f.N, w.M.Alive, cl.Targets, len(cl.Proof), cl.Kind))
@@ -429,6 +471,12 @@ func c04Replay(c *core.Ctx, raw json.RawMessage) {
 		}
 	}
 	for _, in := range w.Insts {
+		if strings.HasSuffix(s.Entry, "(remember)") {
+			if in.MP != nil {
+				c04Remember(c, in, w.M.N(), cl, noop)
+			}
+			continue
+		}
 		c04Inst(c, in, w.M.N(), cl, s.Entry, noop)
 	}
 }
